@@ -44,6 +44,7 @@ pub fn run(tier: Tier) -> i32 {
     let fams = family_d(tier);
     // images: each connector kind, plain and with user lexicon + mapper
     let mut images: Vec<(String, Vec<u8>)> = vec![];
+    let _ = &mut images;
     for f in &fams {
         if f.name == "D/raw-K9" {
             continue;
@@ -55,6 +56,40 @@ pub fn run(tier: Tier) -> i32 {
             });
             let (b, _) = write_bytes(&d).unwrap();
             images.push((format!("{}{}", f.name, if h.is_empty() { "" } else { "+user+mapper" }), b));
+        }
+    }
+    // images with long payloads (strings / byte vectors far beyond any read-ahead block size):
+    // a long feature in the last unk.def entry (the last payload of the image), a long lexicon
+    // feature and a lexicon of several hundred words (large trie)
+    let mut tail_only: Vec<usize> = vec![0; images.len()];
+    {
+        let long = |n: usize| -> String {
+            // many columns: a single CSV field is limited to 4096 bytes
+            let mut s = String::new();
+            let mut i = 0;
+            while s.len() < n {
+                s.push_str(&format!("col{i}-xxxxxxxxxxxxxxxxxxxxxxxxxxxxxxxxxxxxxxxxxxxxxxxxxxxxxxxxxxxxxxxx,"));
+                i += 1;
+            }
+            s.truncate(n);
+            s
+        };
+        let lens: Vec<usize> = tier.pick(vec![10_000], vec![10_000, 4_095, 4_096, 4_097, 8_192, 20_000]);
+        for (k, n) in lens.iter().enumerate() {
+            let mut f = fams[0].clone();
+            f.base.unk.last_mut().unwrap().feature = long(*n);
+            f.base.sys[1].feature = long(5_000 + k);
+            for i in 0..600 {
+                f.base.sys.push(crate::universe::row(&format!("w{i}q{}", i * 7919 % 1000), 1, 1, 10, "bulk"));
+            }
+            let d = f.base.build_real().unwrap_or_else(|e| {
+                println!("MACHINERY: long-payload dictionary does not build: {e}");
+                std::process::exit(2)
+            });
+            let (b, _) = write_bytes(&d).unwrap();
+            // the first of these images is enumerated completely, the others from 64 KiB before the end
+            tail_only.push(if k == 0 { 0 } else { b.len().saturating_sub(65_536) });
+            images.push((format!("D/matrix4x4+long-payloads({n})"), b));
         }
     }
     // sanity: the full images are accepted
@@ -69,7 +104,7 @@ pub fn run(tier: Tier) -> i32 {
     for (ii, (_, img)) in images.iter().enumerate() {
         let modes: Vec<usize> = match tier {
             Tier::Quick => {
-                if ii == 1 || ii == 4 {
+                if ii == 1 || ii == 6 {
                     vec![0, 1]
                 } else {
                     vec![0]
@@ -78,7 +113,7 @@ pub fn run(tier: Tier) -> i32 {
             Tier::Thorough => vec![0, 1, 7],
         };
         for m in modes {
-            let mut s = 0;
+            let mut s = tail_only[ii] / BLOCK * BLOCK;
             while s < img.len() {
                 tasks.push((ii, m, s));
                 s += BLOCK;
